@@ -64,6 +64,10 @@ class C16(Prop):
         gen.add_simple_time_controls(rng, scn, rng.irange(0, 3))
         if rng.chance(0.4):
             gen.add_level_controls(rng, scn, rng.irange(1, 2))
+        if rng.chance(0.15):
+            # a report timestep below the hydraulic timestep: the simulator then steps on the report timestep for this run
+            hyd = scn['options']['hyd_step']
+            scn['options']['report_step'] = int(rng.pick([hyd // 2, hyd // 3, hyd // 2]))
         scn['fault_enum'] = {'mode': 'full' if tier == 'thorough' else 'sample', 'salt': rng.irange(0, 10 ** 9)}
         return scn
 
